@@ -145,6 +145,45 @@ def eval_lines(ctx, case):
             eval_lines(ctx, dict(lines=[l]))
 
 
+REDEF = [   # a name defined more than once: every singly defined constant still equals its own expression over the definitions in front of it
+    (['OFF = 0', 'A = OFF', 'OFF = OFF + 4', 'B = OFF', 'OFF = OFF + 4', 'D = OFF * 2'], dict(A=0, B=4, D=16)),
+    (['X = 1', 'Y = X', 'X = 2', 'Z = X', 'X = Y + Z + 7', 'W = X'], dict(Y=1, Z=2, W=10)),
+    (['N = 3', 'M = N << 1', 'N = M', 'P = N + 1'], dict(M=6, P=7)),
+    (['T = 5', 'T = 5', 'U = T'], dict(U=5)),
+    (['A1 = 1', 'B1 = A1 + 1', 'A1 = B1 + 1', 'B2 = A1 + 1', 'A1 = B2 + 1', 'B3 = A1 + 1'], dict(B1=2, B2=4, B3=6)),
+]
+
+
+def redef_case(ctx, case):
+    asm = kernel.boot()
+    lines, want = REDEF[case['i']]
+    # the definitions alone, and interleaved with code / data that use the singly defined names
+    for variant in ('plain', 'with-uses'):
+        src = list(lines)
+        if variant == 'with-uses':
+            src = src + ['dw %s' % k for k in want] + ['addi x8, x8, %s' % k for k in want]
+        consts = {}
+        ctx.count('programs')
+        ctx.count('lines', len(src))
+        try:
+            out = bytes(asm.assemble('\n'.join(src) + '\n', constants=consts))
+        except Exception as e:
+            ctx.violation('%s:redef:refused' % PROP, 'definitions %s are refused: %s' % (lines, kernel.errline(e)), 'redef_case', case, expected=want, observed=repr(e)[:200])
+            return
+        got = {k: consts.get(k) for k in want}
+        if got != want:
+            ctx.violation('%s:redef:wrong-value' % PROP, 'definitions %s give %s, expected %s' % (lines, got, want), 'redef_case', case, expected=want, observed=got)
+        elif variant == 'with-uses':
+            exp = b''.join((v & 0xffffffff).to_bytes(4, 'little') for v in want.values()) + bytes(asm.assemble('\n'.join('addi x8, x8, %d' % v for v in want.values()) + '\n'))
+            if out != exp:
+                ctx.violation('%s:redef:wrong-bytes' % PROP, 'uses of %s after %s emit %s, expected %s' % (list(want), lines, out.hex(), exp.hex()), 'redef_case', case, expected=exp, observed=out)
+
+
+def redef_task(ctx, cases):
+    for c in cases:
+        redef_case(ctx, c)
+
+
 def eval_task(ctx, task):
     good, n = [], 0
     for i, t in enumerate(task['trees']):
@@ -214,7 +253,7 @@ REG_TEMPLATES = [     # {} = a register operand
     'add {}, x1, x2', 'add x1, {}, x2', 'add x1, x2, {}', 'sub {}, {}, x9', 'and x8, x8, {}', 'mul {}, x5, x6', 'slli {}, x8, 3', 'slli x8, {}, 3',
     'addi {}, x8, 1', 'addi x8, {}, 1', 'addi {}, {}, 1', 'lw {}, x2, 4', 'lw x5, {}, 4', 'lw x9, 4({})', 'jalr {}, x1, 0', 'jalr x0, {}, 0',
     'sw {}, x9, 4', 'sw x8, {}, 4', 'sw x9, 4({})', 'beq {}, x0, 8', 'beq x8, {}, 8', 'bne {}, {}, -4', 'lui {}, 1', 'auipc {}, 1', 'jal {}, 8',
-    'csrrw {}, x2, 0x300', 'csrrw x1, {}, 0x300', 'amoadd.w {}, x9, x10', 'amoadd.w x8, {}, x10', 'amoadd.w x8, x9, {}', 'amoswap.w {}, {}, {}, 1, 1',
+    'csrrw {}, x2, 0x300', 'csrrw x1, {}, 0x300', 'amoadd.w {}, x9, x10', 'amoadd.w x8, {}, x10', 'amoadd.w x8, x9, {}', 'amoswap.w {}, {}, {}, 1, 1', 'amoswap.w {}, x9, x10, 1, 0', 'amoor.w x8, {}, x10, 0, 1', 'sc.w x5, x9, {}, 1, 0', 'amoadd.w {}, {}, x10, 0, 1',
     'lr.w {}, x9', 'lr.w x8, {}', 'sc.w x5, {}, x6',
     'c.mv {}, x9', 'c.mv x9, {}', 'c.add {}, {}', 'c.lw {}, x9, 4', 'c.lw x9, {}, 4', 'c.lw x9, 4({})', 'c.sw {}, x9, 0', 'c.sw x9, {}, 0', 'c.addi {}, 1', 'c.li {}, 1',
     'c.lui {}, 1', 'c.slli {}, 1', 'c.srli {}, 1', 'c.andi {}, 1', 'c.sub {}, x9', 'c.and x9, {}', 'c.jr {}', 'c.jalr {}', 'c.swsp {}, 4', 'c.lwsp {}, 4',
@@ -258,7 +297,7 @@ def transparency_task(ctx, cases):
     ctx.sample(dict(part='transparency', with_const=cases[0]['with_const'], literal=cases[0]['literal'], defs=cases[0]['defs']), cap=1)
 
 
-DRIVERS = {'eval_lines': eval_lines, 'char_case': char_case, 'transparency_case': transparency_case}
+DRIVERS = {'eval_lines': eval_lines, 'char_case': char_case, 'transparency_case': transparency_case, 'redef_case': redef_case}
 
 
 def batch_cases():
@@ -281,8 +320,25 @@ def batch_cases():
     return cases
 
 
+def edge_cases():
+    """whole programs: a forward / backward transfer over n compressible instructions whose registers are written through aliases; n around the sizes at which the
+    transfer fits its compressed form only once the body has shrunk (c.beqz 256, c.j 2048) - alias spelling and literal spelling must give the same bytes"""
+    cases = []
+    defs = ['R = x8', 'Q = s1', 'K = 1']
+    for n in (61, 62, 63, 64, 65, 70, 126, 127, 128, 129, 510, 511, 512, 513, 600, 1022, 1023, 1024):
+        for xfer in ('beq x8, x0, done', 'bne R, x0, done', 'jal x0, done', 'j done'):
+            if xfer.startswith('b') and n > 140:
+                continue
+            body_a = ['addi R, R, K' if i % 2 else 'add Q, Q, R' for i in range(n)]
+            body_l = ['addi x8, x8, 1' if i % 2 else 'add x9, x9, x8' for i in range(n)]
+            lit = xfer.replace('R', 'x8')
+            cases.append(dict(kind='edge-fwd', defs=defs, with_const='\n'.join([xfer] + body_a + ['done:', 'nop']), literal='\n'.join([lit] + body_l + ['done:', 'nop'])))
+            cases.append(dict(kind='edge-bwd', defs=defs, with_const='\n'.join(['done:'] + body_a + [xfer]), literal='\n'.join(['done:'] + body_l + [lit])))
+    return cases
+
+
 def transparency_cases():
-    cases = batch_cases()
+    cases = batch_cases() + edge_cases()
     for tmpl, v in INT_TEMPLATES:
         lit = tmpl.format(v)
         cases.append(dict(kind='int', defs=['K = %d' % v], with_const=tmpl.format('K'), literal=lit))
@@ -315,6 +371,7 @@ def run(tier, seed, t0):
     tasks = [dict(trees=ch, style0=i, all_styles=True) for i, ch in enumerate(kernel.chunks(ts, 4000))]
     m = kernel.explore(eval_task, tasks)
     m = kernel.explore(char_task, list(kernel.chunks(char_cases(), 16)), merged=m)
+    m = kernel.explore(redef_task, [[dict(i=i)] for i in range(len(REDEF))], merged=m)
     tc = transparency_cases()
     m = kernel.explore(transparency_task, list(kernel.chunks(tc, 40)), merged=m)
     n = m.n
